@@ -92,6 +92,106 @@ def run(prog: Program, col: Collector, tier: str, refs: Optional[Refs] = None, c
                 return n
         shapes[f.fq] = [ast.unparse(Ren().visit(st)) for st in body.body if not (isinstance(st, ast.Expr) and isinstance(st.value, ast.Constant))]
 
+    # ---------------------------------------------------------------- R14.10 ops applied to the match of a Delta have a Python-scalar implementation
+    col.rule("R14.10", "an op applied to funsor-valued expressions in Delta.eager_subs has a default implementation for Python scalars (the data of a Number)", floor=1)
+    de = require_func(prog, "funsor.delta::Delta.eager_subs")
+    n10 = 0
+    for c in ast.walk(de.node):
+        if not (isinstance(c, ast.Call) and isinstance(c.func, (ast.Attribute, ast.Name)) and c.args):
+            continue
+        o = cat.resolve_op(de.module, c.func)
+        if o is None:
+            continue
+        # funsor-valued argument: built with operators / methods from local names (not a raw `.data` array)
+        a0 = c.args[0]
+        if any(isinstance(y, ast.Attribute) and y.attr == "data" for y in ast.walk(a0)) or not any(isinstance(y, ast.Name) for y in ast.walk(a0)):
+            continue
+        n10 += 1
+        construct = f"{de.fq}::{norm(c)[:50]}"
+        impl = o.impl
+        if impl is None:
+            col.ok(construct, f"default implementation of `{o.name}` is external ({o.impl_ext})", de.loc(c))
+            continue
+        body = [st for st in impl.body if not (isinstance(st, ast.Expr) and isinstance(st.value, ast.Constant))]
+        only_raises = len(body) == 1 and isinstance(body[0], ast.Raise)
+        col.check(not only_raises, construct, f"`{o.name}` has a default implementation",
+                  f"`{o.name}`'s default implementation only raises ({norm(body[0]) if body else ''}); it is registered for arrays, but here it is applied to a funsor expression "
+                  "that is a Number when the Delta's point and the substituted value are Numbers, so the op runs on a Python scalar: Delta('x', Number(2.))(x=2.) raises "
+                  "instead of evaluating to the log-density", de.loc(c))
+    if n10 == 0:
+        col.unresolved(f"{de.fq}::ops on the match", "no op application on funsor-valued expressions found", de.loc())
+    # ---------------------------------------------------------------- R14.8 Delta + Delta: both orientations are tested before the terms are merged
+    col.rule("R14.8", "Delta + Delta merges the terms only after BOTH operands were tested for mentioning the other's variables", floor=1)
+    mm = require_func(prog, "funsor.delta::eager_add_multidelta")
+    opn, lhs, rhs = mm.positional
+    merges = [r for r in walk_no_nested(mm.node) if isinstance(r, ast.Return) and r.value is not None and any(isinstance(y, ast.Attribute) and y.attr == "terms" for y in ast.walk(r.value))]
+
+    def orientation(t):
+        """(X, Y) when the test asks whether X's own variables occur among Y's inputs"""
+        while isinstance(t, ast.UnaryOp) and isinstance(t.op, ast.Not):
+            t = t.operand
+        if isinstance(t, ast.Call) and isinstance(t.func, ast.Attribute) and t.func.attr in ("intersection", "isdisjoint") and isinstance(t.func.value, ast.Attribute) \
+                and t.func.value.attr == "fresh" and t.args and isinstance(t.args[0], ast.Attribute) and t.args[0].attr in ("inputs", "input_vars"):
+            return norm(t.func.value.value), norm(t.args[0].value)
+        if isinstance(t, ast.BinOp) and isinstance(t.op, ast.BitAnd):
+            for a_, b_ in ((t.left, t.right), (t.right, t.left)):
+                if isinstance(a_, ast.Attribute) and a_.attr == "fresh" and isinstance(b_, ast.Attribute) and b_.attr in ("inputs", "input_vars"):
+                    return norm(a_.value), norm(b_.value)
+        return None
+
+    for r in merges:
+        seen_or = set()
+        other = []
+        for a in walk_no_nested(mm.node):
+            if isinstance(a, ast.If) and a.lineno < r.lineno:
+                o = orientation(a.test)
+                if o is not None:
+                    seen_or.add(o)
+                else:
+                    other.append(a)
+        # an enclosing else-chain counts too (walk_no_nested already yields nested ifs)
+        construct = f"{mm.fq}::{norm(r.value)[:50]}"
+        missing = [o for o in ((lhs, rhs), (rhs, lhs)) if o not in seen_or]
+        if not missing:
+            col.ok(construct, f"tested: {lhs}.fresh against {rhs}.inputs and {rhs}.fresh against {lhs}.inputs", mm.loc(r))
+        elif other:
+            col.unresolved(construct, f"orientation {missing[0]} is not tested by a recognised form (other tests present)", mm.loc(r))
+        else:
+            x_, y_ = missing[0]
+            col.violation(construct, f"the terms are merged without asking whether `{x_}`'s variable occurs in `{y_}`'s point: Delta(y, q) + Delta(x, g(y)) (in that operand order) is no "
+                          f"longer evaluated at y = q, so reducing y leaves g(y) with y free, although the mirror-image order is handled", mm.loc(r))
+    # ---------------------------------------------------------------- R14.9 what is left after reducing a Delta's own variables is reduced with the SAME op
+    col.rule("R14.9", "an eager_reduce method hands the remaining variables on with its own op", floor=4)
+    for f in prog.funcs.values():
+        if isinstance(f.node, ast.Lambda) or f.name != "eager_reduce" or len(f.positional) < 3:
+            continue
+        selfn, op_p, rv_p = f.positional[:3]
+        for c in ast.walk(f.node):
+            if not (isinstance(c, ast.Call) and isinstance(c.func, ast.Attribute) and c.func.attr in ("reduce", "eager_reduce") and len(c.args) == 2):
+                continue
+            a0 = c.args[0]
+            construct = f"{f.fq}::{norm(c)[:60]}"
+            if isinstance(a0, ast.Name) and a0.id == op_p:
+                col.ok(construct, "the method's own op", f.loc(c))
+                continue
+            # a constant op is fine where the path has established `op is <that op>`
+            established = False
+            for g_ in f.module.ancestors(c):
+                if isinstance(g_, ast.If):
+                    pos = any(c is z for st_ in g_.body for z in ast.walk(st_))
+                    t = g_.test
+                    while isinstance(t, ast.UnaryOp) and isinstance(t.op, ast.Not):
+                        t, pos = t.operand, not pos
+                    if isinstance(t, ast.Compare) and len(t.ops) == 1 and isinstance(t.ops[0], (ast.Is, ast.IsNot)) and norm(t.left) == op_p and norm(t.comparators[0]) == norm(a0) \
+                            and pos == isinstance(t.ops[0], ast.Is):
+                        established = True
+            if established:
+                col.ok(construct, f"`{op_p} is {norm(a0)}` holds on this path", f.loc(c))
+            elif isinstance(a0, (ast.Attribute, ast.Name)):
+                col.violation(construct, f"the remaining variables are reduced with `{norm(a0)}` although the method was asked to reduce with `{op_p}` and the path does not establish that the "
+                              f"two are the same op: Delta(x, p[i]).reduce(logaddexp, {{x, i}}) returns 0 instead of log|i|", f.loc(c))
+            else:
+                col.unresolved(construct, f"op argument `{norm(a0)}` not recognised", f.loc(c))
     col.rule("R14.3", "integrating against a Delta substitutes the points of the integrated names only", floor=1)
     c04._delta_integrate(prog, col, refs, cat)
 
@@ -188,6 +288,44 @@ def run(prog: Program, col: Collector, tier: str, refs: Optional[Refs] = None, c
               "from the mass of the tensor for some batch element", ts.loc(norms[0]) if norms else ts.loc())
 
     # ---------------------------------------------------------------- R14.6
+    # ---------------------------------------------------------------- R14.7 the stabilising maximum is taken per row, along the normalised axis
+    col.rule("R14.7", "the maximum subtracted before exp() is taken along the axis the probabilities are normalised over (per batch row)", floor=1)
+    n7 = 0
+    for ex in ast.walk(ts.node):
+        if not (isinstance(ex, ast.Call) and norm(ex.func).rsplit(".", 1)[-1] == "exp" and len(ex.args) == 1 and isinstance(ex.args[0], ast.BinOp) and isinstance(ex.args[0].op, ast.Sub)):
+            continue
+        L, M = ex.args[0].left, ex.args[0].right
+        if isinstance(M, ast.Name):
+            dfs = [st.value for st in ast.walk(ts.node) if isinstance(st, ast.Assign) and len(st.targets) == 1 and norm(st.targets[0]) == M.id]
+            M = dfs[0] if len(dfs) == 1 else M
+        # the normalising sum: a division by sum(<probs>, axis, keepdims=True) in the same function
+        sums = [c_ for d_ in ast.walk(ts.node) if isinstance(d_, ast.BinOp) and isinstance(d_.op, ast.Div) for c_ in [d_.right]
+                if isinstance(c_, ast.Call) and norm(c_.func).rsplit(".", 1)[-1] == "sum" and len(c_.args) >= 1]
+        if not sums:
+            continue
+        n7 += 1
+
+        def axis_of(c_):
+            ax = next((k.value for k in c_.keywords if k.arg in ("axis", "dim")), c_.args[1] if len(c_.args) >= 2 else None)
+            kd = next((k.value for k in c_.keywords if k.arg in ("keepdims", "keepdim")), c_.args[2] if len(c_.args) >= 3 else None)
+            return (norm(ax) if ax is not None else None), (norm(kd) if kd is not None else None)
+        s_ax, _ = axis_of(sums[0])
+        construct = f"{ts.fq}::exp({norm(L)} - max)"
+        if isinstance(M, ast.Call) and norm(M.func).rsplit(".", 1)[-1] in ("amax", "max") and M.args and norm(M.args[0]) == norm(L):
+            m_ax, m_kd = axis_of(M)
+            if m_ax is None:
+                col.violation(construct, f"`{norm(M)}` is the maximum of the WHOLE array, while the probabilities are normalised per row (sum over axis {s_ax}): a batch row whose logits lie "
+                              "more than ~745 below the global maximum underflows to all zeros, 0/0 = nan, and the draw for that row is always index 0 - possibly a point of mass -inf", ts.loc(ex))
+            elif m_ax == s_ax and m_kd == "True":
+                col.ok(construct, f"max along axis {m_ax} (keepdims), the axis of the normalising sum", ts.loc(ex))
+            elif m_ax != s_ax:
+                col.violation(construct, f"the maximum is taken along axis {m_ax} but the probabilities are normalised along axis {s_ax}", ts.loc(ex))
+            else:
+                col.unresolved(construct, f"`{norm(M)}`: keepdims not recognised", ts.loc(ex))
+        else:
+            col.unresolved(construct, f"the subtracted term `{norm(M)[:50]}` is not a maximum of `{norm(L)}`", ts.loc(ex))
+    if n7 == 0:
+        col.unresolved(f"{ts.fq}::stabilised softmax", "no exp(logits - max) / sum(...) found", ts.loc())
     col.rule("R14.6", "a function that discards the shift returned by _compress_rank does not compute a normaliser from the compressed factors", floor=1)
     n6 = 0
     for f in prog.functions_in(prog.modules["funsor.gaussian"]):
